@@ -592,6 +592,40 @@ def run(tier, seed, replay=None):
                 jobs.append((ci, pts, ([("shS", narrow.sh_expr(spec))], f"[{'; '.join(items)}]")))
         except Exception as e:
             R.notes.append(dict(certificate_construction_failed=f"{type(e).__name__}: {str(e)[:200]}", case_hash=cm.canon_hash(c)))
+    # accepted mesh points: exact membership in the hull of the world vertices (the direction of the
+    # equivalence that is NOT proved universally for convex meshes), certified per point
+    from . import shapes_meshcone as mc
+    mjobs = []
+    for ci, (c, r, cl) in enumerate(zip(cases, results, classes)):
+        sh = c["shape"]
+        if "contained" not in r or sh["kind"] != "mesh" or len(sh["vs"]) > 30:
+            continue
+        try:
+            spec = sc.to_spec(sh, None)
+            W = narrow.parts(spec)[0][1]
+            items = []
+            for j, (p, b, x) in enumerate(zip(c["points"], r["contained"], cl)):
+                if not b or x != "in" or len(items) >= 4:
+                    continue
+                w = mc.hull_weights_exact(W, p)
+                if w is None:
+                    continue
+                items.append(f"member_cert shS (WHull [{'; '.join(narrow._q(v) for v in w)}]) {narrow.vq(p)}")
+            if items:
+                mjobs.append((ci, len(items), ([("shS", narrow.sh_expr(spec))], f"[{'; '.join(items)}]")))
+        except Exception as e:
+            R.notes.append(dict(membership_certificate_construction_failed=f"{type(e).__name__}: {str(e)[:200]}"))
+    mcert = dict(submitted=sum(k for _, k, _ in mjobs), accepted=0,
+                 theorem="Checker/ShapesCert.v member_cert_sound: the accepted point IS a convex combination of the mesh's world vertices")
+    try:
+        outs = sc.coq_eval_blocks(PID, sc.CERT_HEADER, [e for _, _, e in mjobs], tag="mcert",
+                                  per_file=max(2, len(mjobs) // cm.NCPU + 1), timeout=1500)
+        for o in outs:
+            mcert["accepted"] += o.count("true")
+    except RuntimeError as e:
+        R.notes.append(dict(membership_certificate_evaluation_failed=str(e)[:500]))
+    R.cov["mesh_accept_certificates"] = mcert
+
     cert = dict(out_class_points=hist_cls["out"], rule="at most 8 per case, boundary pushes first", submitted=sum(len(p) for _, p, _ in jobs), accepted=0, rejected=0)
     try:
         outs = sc.coq_eval_blocks(PID, sc.CERT_HEADER, [e for _, _, e in jobs], tag="cert",
